@@ -10,6 +10,7 @@ executes against the real code.
 -/
 import OFV.Proofs.C10Det
 import OFV.Proofs.C10Sz
+import OFV.Proofs.C10SzOp
 
 namespace OFV.C10
 open OFV.Model OFV.Model.C10 OFV.Spec OFV.Spec.C10
@@ -86,23 +87,8 @@ theorem sz_indices_spec_fixed (sz : Rat) (n ne : Nat) (up down : Nat → Nat) (l
         I < 2 ^ n ∧
         (∀ k, k < n → occAt n I k = true → ∃ s, s < n / 2 ∧ (k = up s ∨ k = down s)) ∧
         ((List.range (n / 2)).filter fun s => occAt n I (up s)).length = numUp ∧
-        ((List.range (n / 2)).filter fun s => occAt n I (down s)).length = numDown := by
-  unfold jwSzIndices at h
-  split at h
-  · cases h
-  · split at h
-    · cases h
-    · next hden =>
-      simp only at h
-      split at h
-      · cases h
-      · next hcond =>
-        simp only [Except.ok.injEq] at h
-        subst h
-        simp only [Bool.or_eq_true, bne_iff_ne, ne_eq, decide_eq_true_eq, not_or, Decidable.not_not,
-          Int.not_lt] at hcond
-        refine ⟨(((ne : Int) + (2 * sz).num) / 2).toNat, ne - (((ne : Int) + (2 * sz).num) / 2).toNat,
-          by omega, by omega, by simpa using hden, nodup_szPairs_comb hm _ _, fun I => mem_szPairs_comb hm _ _ I⟩
+        ((List.range (n / 2)).filter fun s => occAt n I (down s)).length = numDown :=
+  sz_indices_spec_fixed' sz n ne up down l h hm
 
 /-- `jw_sz_indices(sz, n, None, up_index, down_index)` (particle number not fixed), when it
 returns, enumerates each exactly once the indices `I < 2^n` occupying only up / down modes whose
@@ -137,6 +123,28 @@ theorem sz_maps_default (sites : Nat) :
     MapsOK (2 * sites) sites upIndex downIndex ∧
       ∀ k, k < 2 * sites → ∃ s, s < sites ∧ (k = upIndex s ∨ k = downIndex s) :=
   ⟨mapsOK_default sites, cover_default sites⟩
+
+/-- The Model's `sz_operator(sites)` (built with `+=` from number operators with coefficients
+`±1/2`) is diagonal in the Spec action with eigenvalue `(#up - #down)/2`. -/
+theorem sz_operator_diag (tol : Rat) (sites : Nat) (h1 : GQ.isSmall tol Model.C10.half = false)
+    (h2 : GQ.isSmall tol (-Model.C10.half) = false) (s t : Nat) :
+    melF (Model.C10.sz tol sites) t s = if t = s then
+      ⟨(((List.range sites).filter fun i => s.testBit (upIndex i)).length : Rat) * mkRat 1 2
+        - (((List.range sites).filter fun i => s.testBit (downIndex i)).length : Rat) * mkRat 1 2, 0⟩ else 0 := by
+  rw [melF_sz tol sites h1 h2]
+  split
+  · exact occSum_szList sites s
+  · rfl
+
+/-- Matrix level (`restrict_is_projection`, S_z part): every matrix index listed by
+`jw_sz_indices(sz, 2·sites, n_electrons)` (default index maps) is, through the bit reversal, an
+eigenstate of the `sz_operator` with eigenvalue `sz`. -/
+theorem sz_indices_eigen (tol : Rat) (sz : Rat) (sites ne : Nat) (l : List Nat)
+    (h : jwSzIndices sz (2 * sites) (some ne) upIndex downIndex = .ok l)
+    (h1 : GQ.isSmall tol Model.C10.half = false) (h2 : GQ.isSmall tol (-Model.C10.half) = false)
+    (I : Nat) (hI : I ∈ l) :
+    melF (Model.C10.sz tol sites) (maskOfIndex (2 * sites) I) (maskOfIndex (2 * sites) I) = ⟨sz, 0⟩ :=
+  sz_indices_eigen' tol sz sites ne l h h1 h2 I hI
 
 /-! ## jw_configuration_state / jw_hartree_fock_state: one mode-to-bit convention -/
 
@@ -184,7 +192,8 @@ example : jwNumberIndices 2 3 = [3, 5, 6] := by decide
 example : jwSzIndices (1 / 2) 4 (some 1) upIndex downIndex = .ok [8, 2] := by decide +kernel
 example : (configuration_state_index [0, 2] 3 (by decide) (by decide)).1 = (by decide : configIndex [0, 2] 3 < 2 ^ 3) := rfl
 example : configIndex [0, 2] 3 = 5 ∧ maskOfIndex 3 5 = 5 ∧ configIndex [0] 3 = 4 ∧ maskOfIndex 3 4 = 1 := by decide
-example : GQ.isSmall Generated.eqTolerance 1 = false := by decide +kernel
+example : GQ.isSmall Generated.eqTolerance 1 = false ∧ GQ.isSmall Generated.eqTolerance Model.C10.half = false ∧
+    GQ.isSmall Generated.eqTolerance (-Model.C10.half) = false := by decide +kernel
 example : actFTerm [(2, 1), (0, 0)] 3 = some (1, 6) ∧ applyTermDet [(2, 1), (0, 0)] [true, true, false] = (1, [false, true, true]) := by
   decide
 
